@@ -188,6 +188,8 @@ type sEnv struct {
 	fake    *sFakeRepo
 	mu      sync.Mutex
 	msgID   uint64
+	// wrapFS, when set, substitutes the file system a shard table is opened with (crash logging)
+	wrapFS func(fs.FileSystem, string) fs.FileSystem
 }
 
 func newSEnv(cfg sIndexCfg) (*sEnv, error) {
@@ -198,6 +200,9 @@ func newSEnv(cfg sIndexCfg) (*sEnv, error) {
 	}
 	e := &sEnv{dir: dir, cfg: cfg}
 	creator := func(fileSystem fs.FileSystem, root string, p common.Position, l *logger.Logger, _ timestamp.TimeRange, opt option, m any) (*tsTable, error) {
+		if e.wrapFS != nil {
+			fileSystem = e.wrapFS(fileSystem, root)
+		}
 		tst, epoch, ierr := initTSTable(fileSystem, root, p, l, opt, m, true)
 		if ierr != nil {
 			return nil, ierr
